@@ -119,8 +119,11 @@ var styleGen = rapid.Custom(func(t *rapid.T) string {
 	var parts []string
 	for i := 0; i < n; i++ {
 		switch rapid.IntRange(0, 9).Draw(t, "dkind") {
-		case 0:
-			parts = append(parts, rapid.SampledFrom([]string{"@import 'x'", "@media all {position:fixed}", "/* c */", "*zoom:1", "}{", "color red", "<!--", "-->", "'", "\\"}).Draw(t, "odd"))
+		case 0, 1:
+			parts = append(parts, rapid.SampledFrom([]string{"@import 'x'", "@media all {position:fixed}", "/* c */", "*zoom:1", "}{", "color red", "<!--", "-->", "'", "\\",
+				// tokens a declaration cannot start with, carrying a comment terminator and a declaration of their own: whatever the
+				// sanitiser writes in their place must not let that text out as CSS
+				`"*/top:0;"`, `'*/left:0;'`, `"*/top:0;/*"`, `*/top:0`, `"*/z-index:9;"`, `#x*/top:0;`, `url(*/top:0;)`, `"\"*/top:0;"`, `12*/top:0`}).Draw(t, "odd"))
 		default:
 			parts = append(parts, cssDecl.Draw(t, "decl"))
 		}
